@@ -20,8 +20,8 @@ PyatvModel/C18/Lemmas.lean `absRun_sound`, one induction over scripts).
                               a refused call leaves the active one untouched;
 * `stream_accepted_when_idle`, `second_stream_ok`
                               after any failed / cancelled / refused stream a new stream_file is accepted;
-* `orig_*_counterexample`     the scripts of the pinned tree BEFORE the five `fix:` commits violate
-                              the property (D13 a–e) — kept as documentation of the defects.
+* `orig_*_counterexample`     the scripts of the pinned tree BEFORE the six `fix:` commits violate
+                              the property (D13 a–f) — kept as documentation of the defects.
 -/
 namespace PyatvModel.Props.C18
 open PyatvModel.C18
@@ -63,8 +63,8 @@ theorem leak_free (c : Bool) (p : Prog) (hb : Bracketed c p = true) (env : List 
   rw [St.ledger, hown, h.1]
   simp [start]
 
-example : Bracketed true (streamFile false false) = true ∧
-    (run (some (3, .cancel)) (streamFile false false) (start [.takeover 7])).2 ≠ .ok := by decide
+example : Bracketed true (streamFile false false true) = true ∧
+    (run (some (3, .cancel)) (streamFile false false true) (start [.takeover 7])).2 ≠ .ok := by decide
 
 /-- A normal return of a `ReleasesOnReturn` script holds nothing either. -/
 theorem released_on_return (c : Bool) (p : Prog) (hb : Bracketed c p = true)
@@ -99,8 +99,8 @@ def allProtocols : List Nat := List.range PyatvModel.Gen.C18.protocols.length
 theorem connect_bracketed (ps : List Nat) : Bracketed false (connectScript ps) = true :=
   connectScript_bracketed ps
 
-theorem streamFile_bracketed : ∀ v m, Bracketed true (streamFile v m) = true ∧
-    ReleasesOnReturn true (streamFile v m) = true := by decide +kernel
+theorem streamFile_bracketed : ∀ v m p, Bracketed true (streamFile v m p) = true ∧
+    ReleasesOnReturn true (streamFile v m p) = true := by decide +kernel
 
 theorem playUrl_bracketed : ∀ l, Bracketed true (playUrl l) = true ∧
     ReleasesOnReturn true (playUrl l) = true := by decide +kernel
@@ -136,10 +136,10 @@ example : (run (some (4 * 1 + 3, .fail)) (connectScript [0, 2, 4]) (start [])).2
 /-- stream_file: failure or cancellation at ANY collaborator call, or a refusal, in ANY
     environment (other streams active, takeovers held by other protocols): the ledger is
     what it was before the call. -/
-theorem stream_file_leak_free (v m : Bool) (env : List Res) (fault : Fault)
-    (hfail : (run fault (streamFile v m) (start env)).2 ≠ .ok) :
-    (run fault (streamFile v m) (start env)).1.ledger = env :=
-  (leak_free true _ (streamFile_bracketed v m).1 env fault (inScope_true _) hfail).2.2
+theorem stream_file_leak_free (v m p : Bool) (env : List Res) (fault : Fault)
+    (hfail : (run fault (streamFile v m p) (start env)).2 ≠ .ok) :
+    (run fault (streamFile v m p) (start env)).1.ledger = env :=
+  (leak_free true _ (streamFile_bracketed v m p).1 env fault (inScope_true _) hfail).2.2
 
 /-- play_url: same statement. -/
 theorem play_url_leak_free (l : Bool) (env : List Res) (fault : Fault)
@@ -160,11 +160,11 @@ theorem refused_does_not_disturb (p : Prog) (hb : Bracketed true p = true) (env 
   exact ⟨h.2.1, h.1⟩
 
 /-- stream_file while a stream_file is active is refused at once, nothing changes. -/
-theorem stream_refused_while_active (v m : Bool) (env : List Res) (fault : Fault)
+theorem stream_refused_while_active (v m p : Bool) (env : List Res) (fault : Fault)
     (h : Res.acquired ∈ env) :
-    run fault (streamFile v m) (start env) = (start env, .exc .refused) := by
+    run fault (streamFile v m p) (start env) = (start env, .exc .refused) := by
   have : held (start env) Res.acquired = true := by simp [held, start, h]
-  simp [streamFile, run, this]
+  simp [streamFile, streamFileWith, run, this]
 
 example : Res.acquired ∈ [Res.acquired, Res.rconn, Res.takeover 0] := by decide
 
@@ -190,19 +190,20 @@ example : ∃ r ∈ airplayTakeover, r ∈ [Res.takeover 3, Res.playConn] := by 
 
 /-- With no stream active and none of its interfaces taken over, stream_file runs to a
     normal return and leaves the ledger as it was. -/
-theorem stream_accepted_when_idle (v m : Bool) (env : List Res)
+theorem stream_accepted_when_idle (v m p : Bool) (env : List Res)
     (h1 : Res.acquired ∉ env) (h2 : ∀ r ∈ raopTakeover, r ∉ env) :
-    (run none (streamFile v m) (start env)).2 = .ok ∧
-    (run none (streamFile v m) (start env)).1.ledger = env := by
-  have hout : (run none (streamFile v m) (start env)).2 = .ok := by
+    (run none (streamFile v m p) (start env)).2 = .ok ∧
+    (run none (streamFile v m p) (start env)).1.ledger = env := by
+  have hout : (run none (streamFile v m p) (start env)).2 = .ok := by
     have t0 := h2 (.takeover 0) (by decide)
     have t1 := h2 (.takeover 1) (by decide)
     have t2 := h2 (.takeover 2) (by decide)
     have t3 := h2 (.takeover 3) (by decide)
-    cases v <;> cases m <;>
-      simp [streamFile, run, Prog.ofList, raopTakeover, PyatvModel.Gen.C18.raopTakeoverIdx,
+    cases v <;> cases m <;> cases p <;>
+      simp [streamFile, streamFileWith, sendAudio, protoSetup, startFeedback, clientClose,
+        run, Prog.ofList, raopTakeover, PyatvModel.Gen.C18.raopTakeoverIdx,
         held, start, h1, t0, t1, t2, t3, remove]
-  exact ⟨hout, (released_on_return true _ (streamFile_bracketed v m).1 (streamFile_bracketed v m).2
+  exact ⟨hout, (released_on_return true _ (streamFile_bracketed v m p).1 (streamFile_bracketed v m p).2
     env none (inScope_true _) hout).2⟩
 
 example : Res.acquired ∉ [Res.conn 0, Res.httpSession] ∧
@@ -213,19 +214,19 @@ example : Res.acquired ∉ [Res.conn 0, Res.httpSession] ∧
     behaves exactly as it would have before that call; in particular it is accepted when no
     other stream is active. -/
 theorem second_stream_ok (first : Prog) (hb : Bracketed true first = true) (env : List Res)
-    (fault : Fault) (hfail : (run fault first (start env)).2 ≠ .ok) (v m : Bool) :
-    run none (streamFile v m) (start (run fault first (start env)).1.ledger)
-      = run none (streamFile v m) (start env) ∧
+    (fault : Fault) (hfail : (run fault first (start env)).2 ≠ .ok) (v m p : Bool) :
+    run none (streamFile v m p) (start (run fault first (start env)).1.ledger)
+      = run none (streamFile v m p) (start env) ∧
     (Res.acquired ∉ env → (∀ r ∈ raopTakeover, r ∉ env) →
-      (run none (streamFile v m) (start (run fault first (start env)).1.ledger)).2 = .ok) := by
+      (run none (streamFile v m p) (start (run fault first (start env)).1.ledger)).2 = .ok) := by
   have h := (leak_free true first hb env fault (inScope_true _) hfail).2.2
   rw [h]
-  exact ⟨rfl, fun h1 h2 => (stream_accepted_when_idle v m env h1 h2).1⟩
+  exact ⟨rfl, fun h1 h2 => (stream_accepted_when_idle v m p env h1 h2).1⟩
 
 example : Bracketed true (playUrl true) = true ∧
     (run (some (1, .fail)) (playUrl true) (start [])).2 ≠ .ok := by decide
 
-/-! ### the pinned tree before the repair (D13 a–e): the property is false of it -/
+/-! ### the pinned tree before the repair (D13 a–f): the property is false of it -/
 
 /-- D13a: second protocol fails ⇒ the first stays connected (and its task runs on). -/
 theorem orig_connect_counterexample :
@@ -255,6 +256,13 @@ theorem orig_stream_cleanup_counterexample :
 theorem orig_stream_endpoint_counterexample :
     (run (some (2, .fail)) (Orig.streamFile true true) (start [])).2 = .exc .fail ∧
     (run (some (2, .fail)) (Orig.streamFile true true) (start [])).1.ledger = [.ctrl] := by decide
+
+/-- D13f: the TEARDOWN request in send_audio's finally fails (connection already gone) ⇒ the
+    audio UDP endpoint is never closed; the static discipline rejects that script. -/
+theorem orig_send_audio_counterexample :
+    (run (some (14, .fail)) (Orig.streamFileF true true true) (start [])).2 = .exc .fail ∧
+    (run (some (14, .fail)) (Orig.streamFileF true true true) (start [])).1.ledger = [.audiosock] ∧
+    Bracketed true (Orig.streamFileF true true true) = false := by decide
 
 /-- D13c: local file, takeover refused ⇒ the web server keeps running. -/
 theorem orig_play_counterexample :
